@@ -3,12 +3,17 @@
 
   Theorems about the bookkeeping inside the fsm callbacks as modelled in Model/Env.lean
   (bkBefore / bkAfter / finAfter / setSoeorIfEmpty / setEoeorIfEmpty / teardown), for ALL
-  hook sets, environments and oracles. Tie to /repo: correspondence run through
+  hook sets, environments and oracles. Model/Env.lean is the code AS IT IS (since "fix: after_STOP_ACTIVITY
+  stamps run_end_completion_time_ms only if it is still empty" every writer of an end stamp is guarded:
+  `C10_end_stamp_writers_are_code`, `C10_eoeor_once_code`); the code as it was is `stepOf legacyRunCfg`
+  (Model/EnvLegacy.lean), about which the former refutation `C10_finding_end_stamp_rewritten` still speaks. Tie to /repo: correspondence run through
   harness/envh (run-focused generator profile; probe calls record the variables they are
   handed; Ev_RunEvent capture) with the trace monitor.
 -/
 import ControlModel.Gen.EnvBodies
+import ControlModel.Gen.EnvStamps
 import ControlModel.Proofs.EnvRun
+import ControlModel.Proofs.EnvRunOnce
 
 open EnvM
 
@@ -92,7 +97,8 @@ theorem C10_gone_afterwards (env : Env) (hooks : List Hook) (errs : List (Nat ×
       hooks (.after .STOP_ACTIVITY) posW).1
   refine ⟨h.2.1, h.1, ?_⟩
   rw [h.2.2, handleHooks_rn]
-  have : ∀ env' f, (bkAfter env' .STOP_ACTIVITY f).1.rn = env'.rn := by intro env' f; simp [bkAfter, tick]
+  have : ∀ env' f, (bkAfter env' .STOP_ACTIVITY f).1.rn = env'.rn := by
+    intro env' f; simp only [bkAfter]; unfold setEoeorIfEmpty; split <;> rfl
   rw [this, handleHooks_rn]
 
 /-- A fresh number every time: START_ACTIVITY hands out counter+1 and advances the counter. -/
@@ -102,8 +108,8 @@ theorem C10_number_fresh (env : Env) (hooks : List Hook) :
   ⟨(bkBefore_START env hooks).2.1, (bkBefore_START env hooks).2.2.1⟩
 
 /-- The guarded writers never overwrite a stamp that is set: they write only when the
-    variable is present and empty. (STOP_ACTIVITY/GO_ERROR at before_, leave_RUNNING, GO_ERROR
-    at after_, teardown while RUNNING.) -/
+    variable is present and empty. (STOP_ACTIVITY/GO_ERROR at before_, leave_RUNNING, STOP_ACTIVITY/GO_ERROR
+    at after_, teardown while RUNNING: every site that closes a run, `C10_end_stamp_writers_are_code`.) -/
 theorem C10_guarded_never_overwrite (env : Env) (tr : String) (p : Bool) (s : RunStatus) (t : Nat) :
     (env.vars.soeor = .val t → (setSoeorIfEmpty env tr p).1.vars.soeor = .val t ∧ (setSoeorIfEmpty env tr p).2 = []) ∧
     (env.vars.eoeor = .val t → (setEoeorIfEmpty env tr s).1.vars.eoeor = .val t ∧ (setEoeorIfEmpty env tr s).2 = []) := by
@@ -111,28 +117,94 @@ theorem C10_guarded_never_overwrite (env : Env) (tr : String) (p : Bool) (s : Ru
   · unfold setSoeorIfEmpty; simp [h, TV.isEmpty]
   · unfold setEoeorIfEmpty; simp [h, TV.isEmpty]
 
-/-- FULL-STRENGTH "at most once per run" for the end-completion stamp (kept visible; FALSE of
-    the code): within one run no request rewrites an end-completion stamp that is already set. -/
-def C10_eoeor_once_full : Prop :=
+/-- FULL-STRENGTH "at most once per run" for the end-completion stamp, over a machine `stp` (what one request
+    does): within one run no request rewrites an end-completion stamp that is already set. -/
+def C10_eoeor_once_full_of (stp : List Hook → Nat → Env → Req → Env × List Step × Result) : Prop :=
   ∀ (env : Env) (hooks : List Hook) (q : Req) (n : Nat) (t : Nat),
-    env.vars.eoeor = .val t → (step hooks n env q).1.vars.rnVar = env.vars.rnVar ∨ True →
+    env.vars.eoeor = .val t → (stp hooks n env q).1.vars.rnVar = env.vars.rnVar ∨ True →
     (match q with | .try_ .START_ACTIVITY .. | .control .START_ACTIVITY .. => False | _ => True) →
-    (step hooks n env q).1.vars.eoeor = .val t
+    (stp hooks n env q).1.vars.eoeor = .val t
 
-/-- The known finding `end_stamp_rewritten_after_failed_teardown`, machine-checked on the model:
-    after_STOP_ACTIVITY writes run_end_completion_time_ms unconditionally, so a run whose end
-    was already stamped by a teardown that then failed to release its tasks gets a SECOND
-    end-completion stamp when it is stopped. -/
-theorem C10_finding_end_stamp_rewritten : ¬ C10_eoeor_once_full := by
+/-- …for the code as it is (`step`, Model/Env.lean). It was FALSE of the code before the repair (next theorem)
+    and is TRUE of the code now (`C10_eoeor_once_code`). -/
+def C10_eoeor_once_full : Prop := C10_eoeor_once_full_of step
+
+/-- The finding `end_stamp_rewritten_after_failed_teardown` (repaired by "fix: after_STOP_ACTIVITY stamps
+    run_end_completion_time_ms only if it is still empty"), machine-checked on the model of the code AS IT WAS
+    (`stepOf legacyRunCfg`, Model/EnvLegacy.lean): after_STOP_ACTIVITY wrote run_end_completion_time_ms
+    unconditionally, so a run whose end was already stamped by a teardown that then failed to release its tasks
+    got a SECOND end-completion stamp when it was stopped. -/
+theorem C10_finding_end_stamp_rewritten : ¬ C10_eoeor_once_full_of (stepOf legacyRunCfg) := by
   intro h
   have := h { st := .RUNNING, rn := 1, counter := 1, clock := 4,
               vars := { rnVar := some 1, sosor := .val 1, eosor := .val 2, soeor := .val 3, eoeor := .val 4 } }
             [] (.try_ .STOP_ACTIVITY true false) 0 4 rfl (Or.inr trivial) trivial
   revert this; decide
 
-/-- What IS proved for the end-completion stamp: every writer except after_STOP_ACTIVITY is
-    guarded (previous theorem), and after_STOP_ACTIVITY is reached with the stamp already set
-    only if something set it while the environment stayed RUNNING — which only a teardown that
+/-- The machine the refutation is about IS the model of the code, but for one write: with the switch on,
+    `stepOf` is `step` (all hooks, environments, requests); with the switch off the bookkeeping of after_event
+    differs in the STOP_ACTIVITY branch only. -/
+theorem C10_legacy_differs_only_at_after_stop :
+    stepOf codeRunCfg = step ∧
+    (∀ (env : Env) (e : Ev) (f : Bool), e ≠ .STOP_ACTIVITY → bkAfterOf legacyRunCfg env e f = bkAfter env e f) ∧
+    (∀ (env : Env) (e : Ev) (f : Bool), bkAfterOf codeRunCfg env e f = bkAfter env e f) :=
+  ⟨stepOf_code, bkAfterOf_legacy_other, fun env e f => congrFun (congrFun (congrFun bkAfterOf_code env) e) f⟩
+
+/-- **At most once, for the code as it is** — the former full-strength statement, now a theorem: for ALL
+    environments, hooks, task counts and requests other than a START_ACTIVITY (TryTransition, the API glue with
+    its GO_ERROR fallback and its forced write, a teardown forced or not whatever its release rounds do), an
+    end-completion stamp that is set is still set TO THE SAME VALUE afterwards. -/
+theorem C10_eoeor_once_code : C10_eoeor_once_full := by
+  intro env hooks q n t ht _ hq
+  have hns : q.notStart = true := by
+    cases q with
+    | try_ e b r => cases e <;> first | exact absurd hq id | rfl
+    | control e b r => cases e <;> first | exact absurd hq id | rfl
+    | teardown f r1 r2 => rfl
+  exact (step_fixed hooks n env q hns).2 t ht
+
+/-- The same over whole histories and for BOTH end stamps: through any sequence of requests that holds no
+    START_ACTIVITY — stops, errors, recoveries, teardowns that fail and are repeated, API requests — a
+    run_end_time_ms / run_end_completion_time_ms that is set keeps its value. (A START_ACTIVITY opens the next
+    run and clears them: `C10_set_between_neg_and_pos`.) -/
+theorem C10_end_stamps_written_once (hooks : List Hook) (n : Nat) (env : Env) (qs : List Req)
+    (hq : qs.all Req.notStart = true) :
+    (∀ t, env.vars.soeor = .val t → (finalEnv hooks n env qs).vars.soeor = .val t) ∧
+    (∀ t, env.vars.eoeor = .val t → (finalEnv hooks n env qs).vars.eoeor = .val t) :=
+  finalEnv_fixed hooks n env qs hq
+
+/-- The writers of the end-of-run stamps in the model are the ones in the source (go/ast over core/environment,
+    re-read on every run, Gen/EnvStamps.lean): nine `SetRuntimeVar` sites — the two clears of
+    before_START_ACTIVITY and seven stamping sites, EVERY ONE of them under `v, ok := GetUserVars().Get(key);
+    if ok && v == ""` (a site that loses its guard, or a new unguarded one, makes this false; with the guard of
+    after_STOP_ACTIVITY removed the table is `stampSites legacyRunCfg`) — and the model functions at the
+    stamping sites are the guarded writers, with the event name and the publication the table shows. -/
+theorem C10_end_stamp_writers_are_code :
+    Gen.EnvStamps.writers = (stampSites codeRunCfg).map StampSite.row ∧
+    (((stampSites codeRunCfg).filter (fun s => !s.clear)).all (·.guarded) = true) ∧
+    (∀ (env : Env) (r : Bool), bkBefore env .STOP_ACTIVITY r =
+      ((setSoeorIfEmpty env "STOP_ACTIVITY" true).1, (setSoeorIfEmpty env "STOP_ACTIVITY" true).2, false)) ∧
+    (∀ (env : Env) (r : Bool), bkBefore env .GO_ERROR r =
+      ((setSoeorIfEmpty env "GO_ERROR" true).1, (setSoeorIfEmpty env "GO_ERROR" true).2, false)) ∧
+    (∀ (env : Env) (f : Bool), bkAfter env .STOP_ACTIVITY f =
+      setEoeorIfEmpty env "STOP_ACTIVITY" (if f then .doneError else .doneOk)) ∧
+    (∀ (env : Env) (f : Bool), bkAfter env .GO_ERROR f = setEoeorIfEmpty env "GO_ERROR" .doneOk) :=
+  ⟨by rfl, by decide, fun _ _ => rfl, fun _ _ => rfl, fun _ _ => rfl, fun _ _ => rfl⟩
+
+/-- The witness of the repaired finding, end to end on a fresh environment: START, a forced teardown whose
+    first release round fails (the environment stays RUNNING with both end stamps set: 3 and 4), then STOP —
+    the stop keeps both stamps; the code as it was stamped the end-completion time again (5). -/
+example :
+    let reqs : List Req := [.try_ .DEPLOY true false, .try_ .CONFIGURE true false, .try_ .START_ACTIVITY true false,
+                            .teardown true false true, .try_ .STOP_ACTIVITY true false]
+    (finalEnv [] 1 {} (reqs.take 4)).st = .RUNNING ∧
+    (finalEnv [] 1 {} (reqs.take 4)).vars.eoeor = .val 4 ∧
+    (finalEnv [] 1 {} reqs).vars = { rnVar := none, lastRn := some 1, sosor := .val 1, eosor := .val 2, soeor := .val 3, eoeor := .val 4 } ∧
+    (finalEnvOf legacyRunCfg [] 1 {} reqs).vars.eoeor = .val 5 := by decide
+
+/-- What was proved for the end-completion stamp while after_STOP_ACTIVITY was unguarded (kept: it is what made
+    the finding's class "a teardown whose release fails"): after_STOP_ACTIVITY is reached with the stamp
+    already set only if something set it while the environment stayed RUNNING — which only a teardown that
     failed after stamping does (`teardown` is the only guarded writer that can leave the state
     unchanged): a teardown that returns without error leaves DONE. -/
 theorem C10_eoeor_partial (env : Env) (hooks : List Hook) (f r1 r2 : Bool) (n : Nat)
